@@ -160,6 +160,8 @@ def smallset_type(e, n, cmp, al, backing):
         ST_ = 'std::set<%s,%s,%s >' % (E, Cm, A)
     elif backing == 'flatvec':
         ST_ = 'amc::FlatSet<%s,%s,%s,amc::vector<%s,%s > >' % (E, Cm, A, E, A)
+    elif backing == 'flatstd':  # class-type iterators: SmallSet then uses its variant iterator over a non node-based backing set
+        ST_ = 'amc::FlatSet<%s,%s,%s,std::vector<%s,%s > >' % (E, Cm, A, E, A)
     else:
         ST_ = 'amc::FlatSet<%s,%s,%s,amc::SmallVector<%s,3,%s > >' % (E, Cm, A, E, A)
     return 'amc::SmallSet<%s,%d,%s,%s,%s >' % (E, n, Cm, A, ST_)
@@ -188,5 +190,7 @@ SS_CONFIGS = [
     ('ss_20_less_stdset_i32_std', smallset('i32', 20, 'less', 'std', 'stdset', 18, 'stdset')),
     ('ss_18_greater_flatvec_ntr_amc', smallset('ntr', 18, 'greater', 'amc', 'flatvec', 24, 'flatvec')),
     ('ss_2_greater_stdset_co_amc', smallset('co', 2, 'greater', 'amc', 'stdset', 4, 'stdset')),
+    ('ss_2_less_flatstd_i32_std', smallset('i32', 2, 'less', 'std', 'flatstd', 3, 'flatstd')),
+    ('ss_3_greater_flatstd_ntr_std', smallset('ntr', 3, 'greater', 'std', 'flatstd', 1, 'flatstd')),
 ]
 SS_DEFS = dict(SS_CONFIGS)
